@@ -60,6 +60,24 @@ type C10Case struct {
 
 func init() {
 	register(&Check{ID: "C10", Level: "fault_enumeration", Run: runC10})
+	scenario("C10", "pair", func(r *core.Run, c core.Case) {
+		var p C10PairCase
+		params(c, &p)
+		env, err := newC10Env(2)
+		if err != nil {
+			fmt.Println("C10 replay: cannot start the tracer:", err)
+			return
+		}
+		defer env.close()
+		for _, th := range []bool{false, true} {
+			for _, s := range c10PairScenarios(th) {
+				if s.Name == p.Scenario {
+					env.judgePair(r, s, p)
+					return
+				}
+			}
+		}
+	})
 	scenario("C10", "gxz", func(r *core.Run, c core.Case) {
 		var p C10Case
 		params(c, &p)
@@ -761,6 +779,9 @@ func runC10(r *core.Run) {
 		j := jobs[i]
 		env.judge(r, j.s, j.c, j.rec)
 	})
+	// two gxz instances on the same file (beyond the statement's quantifier, which speaks of one run;
+	// the invariant "the data exists in one complete form" is checked all the same)
+	c10Pairs(r, env, r.Workers)
 	r.Assume("process kill, not power loss: unsynced data is outside the property; file-system semantics of the sandbox's /tmp")
 	r.Assume("trusted: kernel ptrace; the child runs with GOMAXPROCS=1 GOGC=off for a deterministic call list")
 }
